@@ -339,6 +339,11 @@ def check(prog, run):
     from . import c04
     c04.check_memo_keys(prog, run, "M1")
 
+    # ---- K1 no lossy skip sets in validation loops
+    from .. import loopskip
+    loopskip.check(prog, run, "K1", ["py_gql.validation"], 20,
+                   "e.g. only the first usage of a variable is type-checked, so an incompatible later usage passes validation")
+
     r = run.rule("A1", "every local variable read in execution/** and utilities/** functions is assigned on every path reaching "
                        "the read (definite assignment over the CFG incl. exception edges)", 100)
     mods = [m for m in prog.modules.values() if m.name.startswith("py_gql.execution") or m.name.startswith("py_gql.utilities")]
